@@ -629,6 +629,11 @@ func (w *Worker) conv(tdst, tsrc types.Type, x Value) Value {
 			if db, ok := ud.(*types.Basic); ok && db.Kind() == types.Uintptr {
 				return w.ptrToUintptr(x.(Ptr))
 			}
+			if pt, ok := ud.(*types.Pointer); ok {
+				if _, isArr := pt.Elem().Underlying().(*types.Array); isArr {
+					return w.reinterpretArrayPtr(x.(Ptr), pt.Elem())
+				}
+			}
 			return x // to *T
 		case info&types.IsString != 0:
 			s := x.(StrV)
@@ -730,6 +735,10 @@ func (w *Worker) conv(tdst, tsrc types.Type, x Value) Value {
 					}
 					return tt.BV(wd, uint64(int64(f)))
 				}
+				if !w.isF() {
+					w.stats.Stubs["R+ model: float->int conversion is exact truncation (no overflow/NaN cases)"]++
+					return tt.intern(Term{Op: OpRTruncBV, Sort: BVSort(w.intWidth(db)), Args: []*Term{xt}})
+				}
 				panic(unsupported("conversion of symbolic float to integer"))
 			}
 		case info&types.IsComplex != 0:
@@ -775,3 +784,37 @@ func (w *Worker) uintptrToPtr(t *Term) Value {
 }
 
 var _ = utf8.RuneError
+
+// reinterpretArrayPtr models (*[..]T)(unsafe.Pointer(p)): a view of the same
+// flat cells with another array shape.
+func (w *Worker) reinterpretArrayPtr(p Ptr, T types.Type) Value {
+	if p.Sym != nil {
+		p = w.concretizePtr(p)
+	}
+	if p.IsNil() {
+		return p
+	}
+	n, leaf := flatArrayInfo(T)
+	if leaf == nil {
+		panic(unsupported("unsafe reinterpretation as %v", T))
+	}
+	var cells []Value
+	switch cur := (*p.Slot).(type) {
+	case ArrayV:
+		cells = leafCells(cur)
+	default:
+		if p.B != nil && p.B.ID >= 0 && p.Idx+n <= len(p.B.Cells) {
+			cells = p.B.Cells[p.Idx:]
+		}
+	}
+	if cells == nil || len(cells) < n {
+		panic(unsupported("unsafe reinterpretation as %v of non-contiguous or too short storage", T))
+	}
+	if _, ok := cells[0].(*Term); !ok {
+		panic(unsupported("unsafe reinterpretation over non-scalar cells"))
+	}
+	w.stats.Stubs["unsafe array reinterpretation modelled as a view of the same cells"]++
+	slot := new(Value)
+	*slot = arrayView(T, cells[:n:len(cells)][:n])
+	return Ptr{Slot: slot, B: p.B, Idx: p.Idx}
+}
